@@ -130,6 +130,23 @@ Proof.
   - intros Hr. apply batches_exact; assumption.
 Qed.
 
+Lemma firstn_seq' k : forall s len, firstn k (seq s len) = seq s (Nat.min k len).
+Proof.
+  induction k as [|k IH]; intros s len; [reflexivity|]. destruct len as [|len]; [reflexivity|].
+  cbn [seq firstn Nat.min]. rewrite IH. reflexivity.
+Qed.
+
+(* the first k batches (k not beyond the full ones) are the first k * bs traces *)
+Lemma batches_firstn_concat {A} (xs : list A) bs k :
+  1 <= bs -> k <= length xs / bs -> concat (firstn k (batches_of xs bs)) = firstn (k * bs) xs.
+Proof.
+  intros Hbs Hk. rewrite batches_split. rewrite firstn_app.
+  replace (k - length (map (cut xs) (full_slices bs (length xs / bs)))) with 0
+    by (unfold full_slices; rewrite !map_length, seq_length; lia).
+  cbn [firstn]. rewrite app_nil_r, firstn_map. unfold full_slices at 1. rewrite firstn_map, firstn_seq'.
+  replace (Nat.min k (length xs / bs)) with k by lia. apply (full_concat xs bs k).
+Qed.
+
 (* a non-empty set gives at least one batch *)
 Lemma batches_of_nonnil {A} (xs : list A) bs : 1 <= bs -> xs <> [] -> batches_of xs bs <> [].
 Proof.
